@@ -18,6 +18,9 @@ pub enum Mode {
     Fixed,
     Var,
     Tiny,
+    /// like Fixed, but a header that does not fit is written as far as it fits before failing
+    /// (the Codec contract only forbids a dirty buffer for encode_member)
+    Dirty,
 }
 
 #[derive(Clone, Copy, Debug, PartialEq, Eq)]
@@ -33,6 +36,7 @@ impl CodecKind {
             CodecKind::Hand(Mode::Fixed) => "fixed",
             CodecKind::Hand(Mode::Var) => "var",
             CodecKind::Hand(Mode::Tiny) => "tiny",
+            CodecKind::Hand(Mode::Dirty) => "dirty",
             CodecKind::Bincode => "bincode",
             CodecKind::Postcard => "postcard",
         }
@@ -41,6 +45,7 @@ impl CodecKind {
         match s {
             "var" => CodecKind::Hand(Mode::Var),
             "tiny" => CodecKind::Hand(Mode::Tiny),
+            "dirty" => CodecKind::Hand(Mode::Dirty),
             "bincode" => CodecKind::Bincode,
             "postcard" => CodecKind::Postcard,
             _ => CodecKind::Hand(Mode::Fixed),
@@ -78,7 +83,7 @@ impl std::error::Error for CErr {}
 
 pub fn id_size(mode: Mode, id: &Id) -> usize {
     match mode {
-        Mode::Fixed => 3,
+        Mode::Fixed | Mode::Dirty => 3,
         Mode::Var => 4 + (id.addr % 3) as usize,
         Mode::Tiny => 1,
     }
@@ -118,7 +123,7 @@ pub fn member_size(mode: Mode, m: &Member<Id>) -> usize {
 
 fn put_id(mode: Mode, id: &Id, buf: &mut impl BufMut) -> Result<(), CErr> {
     match mode {
-        Mode::Fixed => {
+        Mode::Fixed | Mode::Dirty => {
             buf.put_u8(id.addr);
             buf.put_u16(id.gen);
         }
@@ -147,7 +152,7 @@ fn representable(mode: Mode, id: &Id) -> bool {
 
 fn get_id(mode: Mode, buf: &mut impl Buf) -> Result<Id, CErr> {
     match mode {
-        Mode::Fixed => {
+        Mode::Fixed | Mode::Dirty => {
             if buf.remaining() < 3 {
                 return Err(CErr::Short);
             }
@@ -201,6 +206,13 @@ impl Codec<Id> for HandCodec {
             return Err(CErr::Unrepresentable);
         }
         if buf.remaining_mut() < header_size(mode, h) {
+            if mode == Mode::Dirty {
+                // partial write: as many bytes of the header as fit
+                let mut tmp: Vec<u8> = Vec::new();
+                let _ = HandCodec(Mode::Fixed).encode_header(h, &mut tmp);
+                let k = buf.remaining_mut().min(tmp.len());
+                buf.put_slice(&tmp[..k]);
+            }
             return Err(CErr::BufTooSmall);
         }
         put_id(mode, &h.src, &mut buf)?;
